@@ -201,6 +201,10 @@ var c14Vals = []TV{
 	{K: "int"}, {K: "int", I: 7}, {K: "int", I: -1}, {K: "int8"}, {K: "int8", I: 3}, {K: "int16", I: 7}, {K: "int32"}, {K: "int64", I: 1 << 40},
 	{K: "uint"}, {K: "uint8", U: 255}, {K: "uint16"}, {K: "uint16", U: 9}, {K: "uint32", U: 1}, {K: "uint64"}, {K: "uint64", U: 1 << 50}, {K: "uintptr"},
 	{K: "float32"}, {K: "float32", F: 0.5}, {K: "float64"}, {K: "float64", F: -0.25}, {K: "float64", F: 2.5},
+	// string forms that differ between formatting routes (shortest float32 vs widened, exponent forms, extremes)
+	{K: "float32", F: 0.1}, {K: "float32", F: 3.14}, {K: "float32", F: 16777216}, {K: "float32", F: 1e-7}, {K: "float64", F: 0.1}, {K: "float64", F: 1e21}, {K: "float64", F: 1e-7}, {K: "float64", F: 123456789.125}, {K: "float64", F: 100},
+	{K: "int64", I: -1 << 63}, {K: "uint64", U: 1<<64 - 1}, {K: "int8", I: -128}, {K: "uint8", U: 65}, {K: "int32", I: 65},
+	{K: "NamedString", S: "ns"}, {K: "NamedInt", I: 12}, {K: "NamedUint8", U: 66}, {K: "NamedFloat", F: 0.1}, {K: "NamedBool", B: true}, {K: "Stringer", S: "via String()"}, {K: "error", S: "via Error()"}, {K: "Duration", I: 1500000000}, {K: "Month", I: 3}, {K: "FileMode", U: 0o755},
 	{K: "string"}, {K: "string", S: "bv"}, {K: "string", S: "0"}, {K: "string", S: " "}, {K: "string", S: "  pad  "}, {K: "string", S: "two words"},
 	{K: "string", S: `a"b<c&d`}, {K: "string", S: "x:y;z,w"}, {K: "string", S: "nil"}, {K: "string", S: "true"},
 	{K: "nil"}, {K: "missing"},
